@@ -1130,7 +1130,8 @@ func (nd *KVNode) isLocalStoreCurrent() bool {
 
 func (nd *KVNode) readIndexLoop() {
 	var rs raft.ReadState
-	to := verifReadIndexTimeout(time.Second * 5)
+	to := time.Second * 5
+	to = verifReadIndexTimeout(to)
 	for {
 		req := make([]byte, 8)
 		id1 := nd.rn.reqIDGen.Next()
